@@ -1,0 +1,11 @@
+//go:build verif
+
+// Contracts checked by /verif/govc (comment-only file; see /verif/DESIGN.md, property C29).
+package types
+
+//@ # tokEnd names the end position End computes (Pos plus the length of the literal or of the token's spelling)
+//@ ufunc tokEnd(t *Token) token.Pos
+//@ func (*Token).End
+//@   requires p != nil
+//@   assigns nothing
+//@   ensures [call.end] result == tokEnd(p)
